@@ -321,6 +321,9 @@ def check_step(drive, rec, i, out, info, mem, state):
             out.append(V('C04', 'error-not-atomic', i, exc=exc, log=rec['log'],
                          before=sorted(C), after=rec['config_after']))
             return 'abort'
+        if [n for n in rec.get('meta', []) if n != 'step started']:
+            out.append(V('C04', 'error-not-atomic', i, exc=exc, meta_events=rec['meta']))
+            return 'abort'
         state['after_error'] = E
         info.label('error step (' + exc + ')')
         return 'error'
@@ -420,7 +423,7 @@ def run_core(case, build=None, epilogue=False, want=None):
     """Run the case; returns (violations, info, records)."""
     spec = probes.instrument(case['spec'])
     sc = build(spec) if build else None
-    d = Drive(spec, sc=sc)
+    d = Drive(spec, sc=sc, record_meta=True)
     out, info, mem, state = [], Info(), {}, {}
     recs = []
     ntr = len(spec['transitions'])
